@@ -159,11 +159,32 @@ Section Statements.
   Theorem C07_eth_complete : forall chain e0 rid pub,
     let e := mkEtx (e_nonce e0) (e_price e0) (e_gas e0) (e_to e0) (e_value e0) (e_payload e0)
                    (35 + 2 * chain + rid) (e_r e0) (e_s e0) in
-    etx_wf e -> bytes_ok (encode (etx_item e)) ->
+    etx_wf e ->
     (rid = 0 \/ rid = 1) -> validate_sig rid (e_r e) (e_s e) = true ->
     recover (sighash_155 keccak chain e) (pad32 (e_r e) ++ pad32 (e_s e)) rid = Some pub ->
     verify_eth chain (honest_eth keccak chain e0 rid pub) = Accept.
   Proof. exact (eth_complete keccak recover). Qed.
+
+  (* ---- the entry point VerifyTransaction ---- *)
+  Notation verify := (verify sha256 keccak recover verify_sig).
+
+  Theorem C07_verify_dispatch : forall chain cn t,
+    verify chain cn t = Accept ->
+    (t_type t <> eth_type /\ verify_native chain t = Accept) \/
+    (t_type t = eth_type /\ verify_eth cn t = Accept).
+  Proof. exact (verify_dispatch sha256 keccak recover verify_sig). Qed.
+
+  Theorem C07_verify_field_mutation_rejected : forall chain cn t t',
+    t_type t <> eth_type -> verify chain cn t = Accept -> mut1 t t' -> t_type t' <> eth_type ->
+    sha256 (preimage t') <> sha256 (preimage t) ->
+    verify chain cn t' = RChainId \/ verify chain cn t' = RHash.
+  Proof. exact (verify_field_mutation_rejected sha256 keccak recover verify_sig). Qed.
+
+  (* the one single-field change that leaves the native path: Type := 188 *)
+  Theorem C07_type_to_eth_mutation : forall chain cn t,
+    verify_native chain t = Accept -> verify_eth cn (set_type t eth_type) = Accept ->
+    sha256 (preimage t) = keccak (from_hex (t_extra t)).
+  Proof. exact (type_to_eth_mutation sha256 keccak recover verify_sig). Qed.
 End Statements.
 
 Print Assumptions C07_native_sound.
@@ -182,6 +203,9 @@ Print Assumptions C07_eth_unprotected_declares_zero.
 Print Assumptions C07_eth_field_mutation_rejected.
 Print Assumptions C07_eth_extra_mutation.
 Print Assumptions C07_eth_complete.
+Print Assumptions C07_verify_dispatch.
+Print Assumptions C07_verify_field_mutation_rejected.
+Print Assumptions C07_type_to_eth_mutation.
 
 (* ---- the confirmed defect, concretely (dev chain, id 9500) ----
    A Homestead-signed payload (V = 28) wrapped with ChainId "0".  The only fact about the curve that is used
@@ -242,7 +266,7 @@ Example C07_eth_complete_example :
   let e := mkEtx (e_nonce x_e0) (e_price x_e0) (e_gas x_e0) (e_to x_e0) (e_value x_e0) (e_payload x_e0)
                  (35 + 2 * 9500 + 0) (e_r x_e0) (e_s x_e0) in
   let rec_ := one_entry x_sighash x_rs 0 w_pub in
-  etx_wf e /\ bytes_ok (encode (etx_item e)) /\ validate_sig 0 (e_r e) (e_s e) = true /\
+  etx_wf e /\ validate_sig 0 (e_r e) (e_s e) = true /\
   rec_ (sighash_155 keccak256 9500 e) (pad32 (e_r e) ++ pad32 (e_s e))%list 0%N = Some w_pub /\
   let t := honest_eth keccak256 9500 x_e0 0 w_pub in
   t_source t = B "0x2c7536e3605d9c16a7a3d7b1898e529396a65c23" /\
@@ -258,12 +282,11 @@ Proof.
     - repeat (apply Forall_cons; [cbn [item_ok]; split; [apply bytes_okb_spec; vm_compute; reflexivity | vm_compute; reflexivity]|]).
       apply Forall_nil.
     - vm_compute. reflexivity. }
-  assert (Hb : bytes_ok (encode (etx_item e))) by (apply bytes_okb_spec; vm_compute; reflexivity).
   assert (V : validate_sig 0 (e_r e) (e_s e) = true) by (vm_compute; reflexivity).
   assert (R : rec_ (sighash_155 keccak256 9500 e) (pad32 (e_r e) ++ pad32 (e_s e))%list 0%N = Some w_pub) by (vm_compute; reflexivity).
-  split; [exact W|]. split; [exact Hb|]. split; [exact V|]. split; [exact R|]. cbv zeta.
+  split; [exact W|]. split; [exact V|]. split; [exact R|]. cbv zeta.
   split; [vm_compute; reflexivity|]. split; [vm_compute; reflexivity|]. split; [vm_compute; reflexivity|].
-  apply (C07_eth_complete keccak256 rec_ 9500 x_e0 0 w_pub W Hb (or_introl eq_refl) V R).
+  apply (C07_eth_complete keccak256 rec_ 9500 x_e0 0 w_pub W (or_introl eq_refl) V R).
 Qed.
 
 (* native: a toy signer satisfying the completeness hypothesis, an honest transaction, and one of its
